@@ -120,6 +120,25 @@ class FlatSet : private Compare {
   FlatSet() noexcept(std::is_nothrow_default_constructible<Compare>::value
                          &&std::is_nothrow_default_constructible<VecType>::value) = default;
 
+  FlatSet(const FlatSet &) = default;
+  FlatSet(FlatSet &&) = default;
+  FlatSet &operator=(FlatSet &&) = default;
+
+  /// Copy assignment gives the basic exception guarantee: if copying an element throws, the set is left empty
+  /// (a partially assigned vector is in general not sorted any more)
+  FlatSet &operator=(const FlatSet &o) {
+    if (this != &o) {
+      try {
+        _sortedVector = o._sortedVector;
+        compRef() = o.compRef();
+      } catch (...) {
+        _sortedVector.clear();
+        throw;
+      }
+    }
+    return *this;
+  }
+
   explicit FlatSet(const Compare &comp, const Alloc &alloc = Alloc()) : Compare(comp), _sortedVector(alloc) {}
 
   explicit FlatSet(const Alloc &alloc) : _sortedVector(alloc) {}
